@@ -327,6 +327,9 @@ static void run_response_object(int state)
 {
 	int member = xp_choose(2, XP_SCENARIO, "member");
 	int idk = xp_choose(5, XP_SCENARIO, "idkind");
+	/* the value of the result / error member: any JSON value makes the object a response */
+	static const char *const RVAL[] = {"{\"code\":1,\"message\":\"m\"}", "null", "true", "false", "0", "\"\"", "[]", "{}", "[null]"};
+	int rv = xp_choose((int)(sizeof(RVAL) / sizeof(RVAL[0])), XP_SCENARIO, "member-value");
 	char idtext[300] = "";
 	switch (idk) {
 	case 0:
@@ -358,10 +361,10 @@ static void run_response_object(int state)
 	}
 	}
 	int from_r = clients[R].nmsgs, from_y = clients[Y].nmsgs, from_w = W >= 0 ? clients[W].nmsgs : 0;
-	jx_sendf(R, "{%s\"%s\":{\"code\":1,\"message\":\"m\"}}", idtext, member ? "error" : "result");
+	jx_sendf(R, "{%s\"%s\":%s}", idtext, member ? "error" : "result", RVAL[rv]);
 	jx_settle();
 	char what[400];
-	snprintf(what, sizeof(what), "state %d, incoming %s object with %s", state, member ? "error" : "result", idtext[0] ? idtext : "no id");
+	snprintf(what, sizeof(what), "state %d, incoming object with member %s = %s and %s", state, member ? "error" : "result", RVAL[rv], idtext[0] ? idtext : "no id");
 	if (sim_conn_closed_by_daemon(R)) {
 		/* closing the connection is not an answer; the property only forbids answering.  (A response object
 		 * without a string id makes the daemon drop the connection; allowed here, judged by C06/C11.) */
@@ -395,7 +398,7 @@ static void run_response_object(int state)
 	xp_nontrivial();
 	xp_outcome(cl_transcript_hash(R));
 	xp_transition();
-	xp_state(hash_mix(cl_transcript_hash(R) ^ 0x55, (uint64_t)state * 31 + (uint64_t)idk * 7 + (uint64_t)member));
+	xp_state(hash_mix(cl_transcript_hash(R) ^ 0x55, (uint64_t)state * 31 + (uint64_t)idk * 7 + (uint64_t)member + 1000 * (uint64_t)rv));
 }
 
 static void collect(struct bytebuf *t)
@@ -503,6 +506,6 @@ const struct driver drv_c02 = {
     .name = "c02",
     .property = "C02",
     .run = run,
-    .rule = "daemon states: empty; populated; requester holds fetches; other owner stalled; requester has a request in flight; requester owns an element with a request in flight; requester owns nothing any more but a departed caller's request is still pending at it and a new connection has arrived since; full product daemon-state x transport x {15 method forms} x {25 params shapes} x {12 id forms}, plus incoming result/error objects x 5 id kinds, plus all ordered pairs (thorough: triples) of a request alphabet sent as a batch and compared with a twin execution that sends the members one by one; every execution is non-trivial (one request judged by the response ledger); states = distinct normalised (requester, bystander) transcripts",
+    .rule = "daemon states: empty; populated; requester holds fetches; other owner stalled; requester has a request in flight; requester owns an element with a request in flight; requester owns nothing any more but a departed caller's request is still pending at it and a new connection has arrived since; full product daemon-state x transport x {15 method forms} x {25 params shapes} x {12 id forms}, plus incoming result/error objects x 9 values of that member (object, null, booleans, 0, empty string / array / object, [null]) x 5 id kinds, plus all ordered pairs (thorough: triples) of a request alphabet sent as a batch and compared with a twin execution that sends the members one by one; every execution is non-trivial (one request judged by the response ledger); states = distinct normalised (requester, bystander) transcripts",
     .assumptions = "id equality is JSON equality (numbers by value)|ids of type null/bool/object/array are outside the statement: only 'no response on a foreign connection' is checked for them|an incoming response object may make the daemon drop the connection; that is not an answer",
 };
